@@ -146,6 +146,10 @@ def parse_directive_text(
     else:
         arguments = parse_directive_arguments(directive_class, first_line)
 
+    # a body that only consists of blank lines is no body
+    if not any(line.strip() for line in body_lines):
+        body_lines = []
+
     # remove first line of body if blank
     # this is to allow space between the options and the content
     if body_lines and not body_lines[0].strip():
